@@ -604,7 +604,7 @@ namespace BitSerializer::Convert::Detail
 					throw std::invalid_argument("Input string is not a valid ISO duration: PnWnDTnHnMnS");
 				};
 
-				if (pos != end && std::isdigit(*pos))
+				if (pos != end && std::isdigit(static_cast<unsigned char>(*pos)))
 				{
 					uint64_t value = 0;
 					const std::from_chars_result result = std::from_chars(pos, end, value);
@@ -678,7 +678,7 @@ namespace BitSerializer::Convert::Detail
 							++pos;
 						}
 						pos = parseNextPart(pos, end, isDatePart, isNegative, duration);
-					} while (pos != end && !std::isspace(*pos));
+					} while (pos != end && !std::isspace(static_cast<unsigned char>(*pos)));
 					return duration;
 				}
 			}
